@@ -262,6 +262,39 @@ class Engine(NumericMixin, EvalMixin, ExecMixin, CallMixin, BuiltinMixin):
                 self.refute(fi, spec, res)
             except Exception:
                 res.refute_error = traceback.format_exc()
+            finally:
+                from . import state as S_
+                S_.FINITE['K'] = None
+        # verdicts must not flip under machine load: what is still unknown (and has no counter-model) gets one retry
+        # with three times the budget -- after the (cheap) counter-model search, so that a broken obligation is
+        # reported quickly and a slow proof still goes through
+        for rec in res.obligations:
+            ob = rec.pop('retry_ob', None)
+            if ob is None or rec['status'] != 'unknown':
+                continue
+            t1 = time.time()
+            groups = [o for o in self.ob_groups.get(rec['name'], [])]
+            ok = True
+            started = False
+            for o in groups:
+                if o is ob:
+                    started = True
+                if not started:
+                    continue
+                status, model = self.solve(o, max(self.timeout_ms * 3, 120000))
+                if status == 'unsat':
+                    continue
+                ok = False
+                if status == 'sat':
+                    rec['status'], rec['model'], rec['model_scope'], rec['path'] = 'failed', model, 'unbounded', list(o.path)
+                break
+            rec['time'] = round(rec['time'] + time.time() - t1, 3)
+            if ok:
+                rec['status'] = 'discharged'
+                rec.pop('path', None)
+        st_ = [r['status'] for r in res.obligations]
+        if res.obligations and res.status in ('failed', 'undecided', 'proved'):
+            res.status = 'failed' if 'failed' in st_ else ('undecided' if 'unknown' in st_ else 'proved')
         res.time = time.time() - t0
         return res
 
@@ -464,16 +497,24 @@ class Engine(NumericMixin, EvalMixin, ExecMixin, CallMixin, BuiltinMixin):
             groups.setdefault(ob.name, []).append(ob)
         all_ok = True
         any_fail = False
+        unknown_per_base = {}
         self.ob_groups = groups
         for name, obs in groups.items():
             rec = {'name': name, 'kind': obs[0].kind, 'instances': len(obs), 'status': 'discharged', 'time': 0.0,
                    'backend': 'z3', 'where': obs[0].where}
+            base = name.split('/')[0]
             for ob in obs:
                 t0 = time.time()
-                status, model = self.solve(ob)
+                if unknown_per_base.get(base, 0) >= 2:
+                    # two conjuncts of this obligation are already open: the others wait for the counter-model search
+                    # (which refutes the obligation as a whole) and are solved in the retry pass if it finds nothing
+                    status, model = 'unknown', None
+                else:
+                    status, model = self.solve(ob)
                 if status == 'unknown':
-                    # verdicts must not flip under machine load: one retry with three times the budget
-                    status, model = self.solve(ob, self.timeout_ms * 3)
+                    unknown_per_base[base] = unknown_per_base.get(base, 0) + 1
+                if status == 'unknown':
+                    rec['retry_ob'] = ob      # retried with three times the budget after the counter-model search (verify_case)
                 rec['time'] += time.time() - t0
                 if status == 'unsat':
                     continue
